@@ -302,6 +302,14 @@ def oracle(case, ctx):
                     got = [[int(v) for v in back.iloc[i, 0].index] for i in range(n)]
                     if got != lab or not np.array_equal(dec_nested(back)[0], A):
                         discs.append(D("time_labels_differ:Ns->MI->Ns", "cell time labels %s expected %s" % (got[:2], lab[:2])))
+        # the 3-D array has no time labels: values go there by position
+        for what, fn in (("Ns->A3", lambda: dp.from_nested_to_3d_numpy(Xo)), ("check_X(coerce_to_numpy)", lambda: check_X(Xo, coerce_to_numpy=True))):
+            a3 = sut(fn)
+            if isinstance(a3, Raised):
+                discs.append(D("conversion_raised:%s:%s" % (what, a3.type), "per-instance time labels: " + a3.msg))
+            elif not (isinstance(a3, np.ndarray) and a3.shape == A.shape and np.array_equal(a3, A)):
+                discs.append(D("values_differ:%s" % what, "per-instance time labels %s: got shape %s %s expected %s"
+                               % (lab[:2], getattr(a3, "shape", None), np.asarray(a3).tolist()[:2], A.tolist()[:2])))
         lg = sut(dp.from_nested_to_long, Xo, "case_id", "reading_id", "dim_id")
         if isinstance(lg, Raised):
             discs.append(D("conversion_raised:Ns->L:%s" % lg.type, "per-instance time labels: " + lg.msg))
